@@ -9,6 +9,8 @@ import (
 	"io/fs"
 	"os"
 	"path"
+	"path/filepath"
+	"strings"
 	"time"
 
 	"github.com/pojntfx/stfs/pkg/config"
@@ -102,6 +104,18 @@ func (r *Runner) OpenPaths() map[string]bool {
 	return m
 }
 
+// FileBackedSources, when set to a directory, makes synthetic members come from real
+// *os.File sources in that directory (as the CLI's Archive/Update pass them).
+var FileBackedSources string
+
+type removeOnClose struct{ *os.File }
+
+func (r removeOnClose) Close() error {
+	err := r.File.Close()
+	_ = os.Remove(r.File.Name())
+	return err
+}
+
 // HideWriterTo makes synthetic sources behave like an *os.File source (copied in 32 KiB
 // chunks) instead of exposing bytes.Reader's WriteTo (guard of finding F-29).
 var HideWriterTo bool
@@ -140,6 +154,20 @@ func memberSource(ms []Member) func() (config.FileConfig, error) {
 		}
 		return config.FileConfig{
 			GetFile: func() (io.ReadSeekCloser, error) {
+				if FileBackedSources != "" {
+					// what the CLI passes: an *os.File
+					f, err := os.CreateTemp(FileBackedSources, "src-*")
+					if err != nil {
+						return nil, err
+					}
+					if _, err := f.Write(data); err != nil {
+						return nil, err
+					}
+					if _, err := f.Seek(0, io.SeekStart); err != nil {
+						return nil, err
+					}
+					return removeOnClose{f}, nil
+				}
 				if HideWriterTo {
 					if OnHidden != nil && len(data) > 32*1024 {
 						OnHidden()
@@ -341,11 +369,32 @@ func (r *Runner) Do(s Step) (res Res) {
 		}
 		r.W.Close()
 		var w *world.World
+		r.Opts.Overwrite = false // starting the tape over is a one-off of the first instance
 		call(func() { w, res.Err = world.New(r.Cfg, r.Opts) })
 		if res.Hang == nil && res.Err == nil {
 			r.W = w
 			if w.InitErr != nil {
 				res.Err = fmt.Errorf("initialize after reopen: %w", w.InitErr)
+			}
+		}
+	case "rebuild":
+		// throw the index away and continue on an instance that rebuilt it from the tape
+		for i, sl := range r.Slots {
+			if sl != nil {
+				call(func() { _ = sl.H.Close() })
+				r.Slots[i] = nil
+			}
+		}
+		r.W.Close()
+		r.Opts.Overwrite = false
+		r.Opts.DB = fmt.Sprintf("%s.rebuilt-%d", strings.TrimSuffix(r.W.DB, filepath.Ext(r.W.DB)), time.Now().UnixNano())
+		r.Opts.Drive = r.W.Drive
+		var w *world.World
+		call(func() { w, res.Err = world.New(r.Cfg, r.Opts) })
+		if res.Hang == nil && res.Err == nil {
+			r.W = w
+			if w.InitErr != nil {
+				res.Err = fmt.Errorf("initialize over an empty index: %w", w.InitErr)
 			}
 		}
 	case "arch_archive":
